@@ -16,6 +16,16 @@ use std::str::FromStr;
 pub fn pke_pair(be: Be) -> (Vec<u8>, Vec<u8>) {
     if be == Be::V1 {
         (crate::facts::v1_pke_secret_pem().into_bytes(), crate::facts::v1_pke_public_pem().into_bytes())
+    } else if be.version() == 3 {
+        // alternate between recipients whose compressed public key has tag 02 and tag 03 (both sign classes of y get exercised)
+        use std::sync::atomic::{AtomicUsize, Ordering};
+        static NEXT: AtomicUsize = AtomicUsize::new(0);
+        let want = 2 + (NEXT.fetch_add(1, Ordering::Relaxed) % 2) as u8;
+        loop {
+            let sk = gen_secret(be);
+            let pk = public_of(be, &sk);
+            if pk.first() == Some(&want) { return (sk, pk); }
+        }
     } else {
         let sk = gen_secret(be);
         let pk = public_of(be, &sk);
